@@ -555,7 +555,15 @@ class StmtMixin:
                 # threading / inter-process mutex: mutual exclusion is assumed, no state change
                 if it.optional_vars is not None:
                     raise Unsupported("mutex bound to a name")
-                out += self.do_with(r.st, s, rest, is_async)
+                # ghost trace entries: the critical section of this mutex is delimited on the effect trace, so that an
+                # effect guard can require "inside the section of <mutex>" (effect_with_arg('mutex.enter', 0, m) and not
+                # effect_with_arg('mutex.exit', 0, m))
+                s_in = r.st.copy()
+                s_in.trace.append(Effect("mutex.enter", [cm], s.lineno, None))
+                for b in self.do_with(s_in, s, rest, is_async):
+                    if b.kind != "undecided":
+                        b.st.trace.append(Effect("mutex.exit", [cm], s.lineno, None))
+                    out.append(b)
                 continue
             s1 = self.interfere(r.st, s.lineno) if is_async else r.st
             for e in self.call_method(s1, cm, enter, [], s.lineno):
